@@ -227,3 +227,240 @@ Proof.
 Qed.
 
 End Ldl.
+
+(* ---- a_real_ldl as a whole ---- *)
+Section LdlMain.
+Variable tiny : R.
+Hypothesis tiny_pos : 0 < tiny.
+Let RO := R_ops tiny.
+Variable n : nat.
+Variable A : list R.
+Hypothesis LA : length A = (n * n)%nat.
+
+(* failure: at some column c the pivot a(c,c) - sum_{i<c} l(c,i)^2 d(i) computed from the
+   (correctly factored) columns before it is below the threshold *)
+Definition ldl_failed : Prop :=
+  exists c M0, (c < n)%nat /\ LdlInv tiny n (mg n A) c M0 /\
+               Rabs (mg n A c c - ldl_dot (mg n M0) c c) < tiny.
+
+Lemma ldl_spec :
+  exists rc M, ldl RO n A = Some (rc, M) /\ length M = (n * n)%nat /\
+    ((rc = 0%nat /\ LdlInv tiny n (mg n A) n M) \/ (rc = 1%nat /\ ldl_failed)).
+Proof.
+  unfold ldl.
+  destruct (for_range_inv
+              (fun k (s : nat * list R) => length (snd s) = (n * n)%nat /\
+                 ((fst s = 0%nat /\ LdlInv tiny n (mg n A) k (snd s)) \/ (fst s = 1%nat /\ ldl_failed)))
+              0 n
+              (fun c (s : nat * list R) => if Nat.eqb (fst s) 0 then ldl_step RO n c (snd s) else Some s)
+              (0%nat, A)) as (s & E & L & P).
+  - lia.
+  - simpl. split; auto. left. split; auto. split; auto. split; [intros; lia|]. split; [intros; lia|]. auto.
+  - intros c [rc M] [_ Hc] [L [[E0 Inv]|[E1 F]]]; simpl in *; subst rc; simpl.
+    + destruct (ldl_step_spec tiny tiny_pos n (mg n A) c M Hc Inv) as (rc & M' & E & [[-> I']|[-> [L' F]]]).
+      * exists (0%nat, M'). split; auto. simpl. split; [apply I'|]. left. auto.
+      * exists (1%nat, M'). split; auto. simpl. split; auto. right. split; auto. exists c, M. auto.
+    + exists (1%nat, M). split; auto.
+  - destruct s as [rc M]. exists rc, M. split; [exact E|]. auto.
+Qed.
+
+End LdlMain.
+
+(* ================================================================================ LLT *)
+Section Llt.
+Variable tiny : R.
+Hypothesis tiny_pos : 0 < tiny.
+Let RO := R_ops tiny.
+Variable n : nat.
+
+(* linalg_llt.c:10-18 : the off-diagonal part of row r *)
+Lemma llt_row_loop A r :
+  length A = (n * n)%nat -> (r < n)%nat ->
+  exists A1,
+    for_range 0 r (fun c A =>
+      do A' <- for_range 0 c (fun i A =>
+                 do arc <- rd A (n * r + c); do ari <- rd A (n * r + i); do aci <- rd A (n * c + i);
+                 wr A (n * r + c) (sub RO arc (mul RO ari aci))) A;
+      do arc <- rd A' (n * r + c); do acc <- rd A' (n * c + c);
+      wr A' (n * r + c) (div RO arc acc)) A = Some A1 /\
+    length A1 = (n * n)%nat /\
+    (forall r' c', (r' < n)%nat -> (c' < n)%nat -> (r' <> r \/ r <= c')%nat -> mg n A1 r' c' = mg n A r' c') /\
+    (forall c, (c < r)%nat ->
+       mg n A1 r c = (mg n A r c - rsum (fun i => mg n A1 r i * mg n A c i) c) / mg n A c c).
+Proof.
+  intros LA Hr.
+  destruct (for_range_inv
+              (fun k (A' : list R) => length A' = (n * n)%nat /\
+                 (forall r' c', (r' < n)%nat -> (c' < n)%nat -> (r' <> r \/ k <= c')%nat -> mg n A' r' c' = mg n A r' c') /\
+                 (forall c, (c < k)%nat ->
+                    mg n A' r c = (mg n A r c - rsum (fun i => mg n A' r i * mg n A c i) c) / mg n A c c))
+              0 r
+              (fun c A =>
+                 do A' <- for_range 0 c (fun i A =>
+                            do arc <- rd A (n * r + c); do ari <- rd A (n * r + i); do aci <- rd A (n * c + i);
+                            wr A (n * r + c) (sub RO arc (mul RO ari aci))) A;
+                 do arc <- rd A' (n * r + c); do acc <- rd A' (n * c + c);
+                 wr A' (n * r + c) (div RO arc acc)) A) as (A1 & E & L1 & F1 & P1).
+  - lia.
+  - split; auto. split; auto. intros; lia.
+  - intros k A0 [_ Hk] (L0 & F0 & P0).
+    destruct (acc_loop n A0 r k k
+                (fun i A => do arc <- rd A (n * r + k); do ari <- rd A (n * r + i); do aci <- rd A (n * k + i);
+                            wr A (n * r + k) (sub RO arc (mul RO ari aci)))
+                (fun i => mg n A0 r i * mg n A0 k i)) as (A2 & E2 & L2 & P2); auto; try lia.
+    { intros i A' Hi L' Ag.
+      rewrite !(rd_mg n) by (auto; lia). rewrite (wr_mg n) by (auto; lia).
+      rewrite (Ag r i), (Ag k i) by (auto; lia). reflexivity. }
+    rewrite E2.
+    destruct (cell_div tiny n A2 r k k k) as (A3 & E3 & L3 & P3); auto; try lia.
+    exists A3. split; [exact E3|]. split; auto.
+    assert (Hfr : forall r' c', (r' < n)%nat -> (c' < n)%nat -> (r' <> r \/ c' <> k) -> mg n A3 r' c' = mg n A0 r' c').
+    { intros r' c' Hr' Hc' N. rewrite P3 by auto.
+      destruct (Nat.eqb_spec r' r), (Nat.eqb_spec c' k); simpl; try lia; rewrite P2 by auto;
+        destruct (Nat.eqb_spec r' r), (Nat.eqb_spec c' k); simpl; try lia; reflexivity. }
+    split; [|].
+    + intros r' c' Hr' Hc' N. rewrite Hfr by (auto; lia). apply F0; auto; lia.
+    + intros c Hc. destruct (Nat.eq_dec c k) as [->|Nc].
+      * rewrite P3 by (auto; lia). rewrite !Nat.eqb_refl. simpl.
+        rewrite !P2 by (auto; lia). rewrite !Nat.eqb_refl. simpl.
+        destruct (Nat.eqb_spec k r); [lia|]. simpl.
+        rewrite (F0 r k), (F0 k k) by (auto; lia). f_equal. f_equal.
+        apply rsum_ext. intros i Hi. rewrite (Hfr r i) by (auto; lia).
+        rewrite (F0 k i) by (auto; lia). reflexivity.
+      * rewrite Hfr by (auto; lia). rewrite P0 by lia. f_equal. f_equal.
+        apply rsum_ext. intros i Hi. rewrite (Hfr r i) by (auto; lia). reflexivity.
+  - exists A1. split; [exact E|]. split; auto.
+Qed.
+
+(* linalg_llt.c:19-22 : the diagonal of row r *)
+Lemma llt_diag_loop A r :
+  length A = (n * n)%nat -> (r < n)%nat ->
+  exists A2,
+    for_range 0 r (fun i A =>
+      do arr <- rd A (n * r + r); do ari <- rd A (n * r + i);
+      wr A (n * r + r) (sub RO arr (mul RO ari ari))) A = Some A2 /\
+    length A2 = (n * n)%nat /\
+    forall r' c', (r' < n)%nat -> (c' < n)%nat ->
+      mg n A2 r' c' = if (Nat.eqb r' r && Nat.eqb c' r)%bool
+                      then mg n A r r - rsum (fun i => mg n A r i * mg n A r i) r else mg n A r' c'.
+Proof.
+  intros LA Hr.
+  apply (acc_loop n A r r r _ (fun i => mg n A r i * mg n A r i)); auto.
+  intros i A' Hi L' Ag.
+  rewrite !(rd_mg n) by (auto; lia). rewrite (wr_mg n) by auto.
+  rewrite (Ag r i) by (auto; lia). reflexivity.
+Qed.
+
+Variable a0 : nat -> nat -> R.
+
+Definition LltInv (k : nat) (M : list R) : Prop :=
+  length M = (n * n)%nat /\
+  (forall r c, (r < k)%nat -> (c <= r)%nat -> (r < n)%nat ->
+     a0 r c = rsum (fun i => mg n M r i * mg n M c i) (S c)) /\
+  (forall r, (r < k)%nat -> (r < n)%nat -> 0 < mg n M r r) /\
+  (forall r c, (r < n)%nat -> (c < n)%nat -> (k <= r \/ r < c)%nat -> mg n M r c = a0 r c).
+
+(* the Cholesky pivot of row r given the rows before it *)
+Definition llt_pivot (M1 : list R) (r : nat) : R := a0 r r - rsum (fun i => mg n M1 r i * mg n M1 r i) r.
+
+Lemma llt_step_spec r M :
+  (r < n)%nat -> LltInv r M ->
+  exists rc M', llt_step RO n r M = Some (rc, M') /\ length M' = (n * n)%nat /\
+    ((rc = 0%nat /\ LltInv (S r) M') \/
+     (rc = 1%nat /\ exists M1, (forall c, (c < r)%nat ->
+                                  a0 r c = rsum (fun i => mg n M1 r i * mg n M c i) (S c)) /\
+                               llt_pivot M1 r < tiny)).
+Proof.
+  intros Hr (LM & I1 & I2 & I3). unfold llt_step.
+  destruct (llt_row_loop M r LM Hr) as (A1 & E1 & L1 & F1 & P1). rewrite E1.
+  destruct (llt_diag_loop A1 r L1 Hr) as (A2 & E2 & L2 & P2). rewrite E2.
+  rewrite (rd_mg n) by auto.
+  (* the finished off-diagonal entries of row r satisfy their equations *)
+  assert (Hrow : forall c, (c < r)%nat -> a0 r c = rsum (fun i => mg n A1 r i * mg n M c i) (S c)).
+  { intros c Hc. rewrite rsum_S. rewrite (P1 c Hc). rewrite (I3 r c) by (auto; lia).
+    specialize (I2 c Hc ltac:(lia)). field. lra. }
+  assert (Hpiv : mg n A2 r r = llt_pivot A1 r).
+  { rewrite P2 by auto. rewrite !Nat.eqb_refl. simpl. unfold llt_pivot.
+    rewrite (F1 r r) by (auto; lia). rewrite (I3 r r) by (auto; lia). reflexivity. }
+  unfold RO; simpl.
+  destruct (Rlt_dec (mg n A2 r r) tiny) as [Lt|NLt].
+  - exists 1%nat, A2. split; auto. split; auto. right. split; auto. exists A1. split; auto. now rewrite <- Hpiv.
+  - rewrite (wr_mg n) by auto.
+    eexists 0%nat, _. split; [reflexivity|]. split; [now rewrite upd_length|]. left. split; auto.
+    set (A3 := upd A2 (n * r + r) (R_sqrt.sqrt (mg n A2 r r))).
+    assert (P3 : forall r' c', (r' < n)%nat -> (c' < n)%nat ->
+               mg n A3 r' c' = if (Nat.eqb r' r && Nat.eqb c' r)%bool then R_sqrt.sqrt (mg n A2 r r) else mg n A2 r' c').
+    { intros r' c' Hr' Hc'. unfold A3. now rewrite mg_upd by auto. }
+    assert (Hoth : forall r' c', (r' < n)%nat -> (c' < n)%nat -> r' <> r -> mg n A3 r' c' = mg n M r' c').
+    { intros r' c' Hr' Hc' N. rewrite P3 by auto. destruct (Nat.eqb_spec r' r); [lia|]. simpl.
+      rewrite P2 by auto. destruct (Nat.eqb_spec r' r); [lia|]. simpl.
+      apply F1; auto. }
+    assert (Hrowr : forall c', (c' < r)%nat -> mg n A3 r c' = mg n A1 r c').
+    { intros c' Hc'. rewrite P3 by (auto; lia). destruct (Nat.eqb_spec c' r); [lia|].
+      rewrite Bool.andb_false_r. rewrite P2 by (auto; lia). destruct (Nat.eqb_spec c' r); [lia|].
+      rewrite Bool.andb_false_r. reflexivity. }
+    assert (Hpos : 0 < mg n A2 r r) by lra.
+    split; [unfold A3; now rewrite upd_length|]. split; [|split].
+    + intros r' c Hr' Hc Hr'n.
+      destruct (Nat.eq_dec r' r) as [->|Nr].
+      * destruct (Nat.eq_dec c r) as [->|Nc].
+        -- rewrite rsum_S. rewrite P3 by auto. rewrite !Nat.eqb_refl. simpl.
+           rewrite sqrt_sqrt by lra. rewrite Hpiv. unfold llt_pivot.
+           rewrite (rsum_ext (fun i => mg n A3 r i * mg n A3 r i) (fun i => mg n A1 r i * mg n A1 r i))
+             by (intros i Hi; rewrite Hrowr by lia; reflexivity).
+           lra.
+        -- rewrite (Hrow c) by lia. apply rsum_ext. intros i Hi.
+           rewrite Hrowr by lia. rewrite (Hoth c i) by lia. reflexivity.
+      * rewrite (I1 r' c) by (auto; lia). apply rsum_ext. intros i Hi.
+        rewrite (Hoth r' i), (Hoth c i) by lia. reflexivity.
+    + intros r' Hr' Hr'n. destruct (Nat.eq_dec r' r) as [->|Nr].
+      * rewrite P3 by auto. rewrite !Nat.eqb_refl. simpl. now apply sqrt_lt_R0.
+      * rewrite Hoth by auto. apply I2; lia.
+    + intros r' c' Hr' Hc' Hor. rewrite P3 by auto.
+      destruct (Nat.eqb_spec r' r) as [->|Nr]; simpl.
+      * destruct (Nat.eqb_spec c' r); [lia|]. rewrite P2 by auto. rewrite Nat.eqb_refl. simpl.
+        destruct (Nat.eqb_spec c' r); [lia|]. rewrite (F1 r c') by (auto; lia). apply I3; auto; lia.
+      * rewrite P2 by auto. destruct (Nat.eqb_spec r' r); [lia|]. simpl.
+        rewrite (F1 r' c') by auto. apply I3; auto; lia.
+Qed.
+
+End Llt.
+
+Section LltMain.
+Variable tiny : R.
+Hypothesis tiny_pos : 0 < tiny.
+Let RO := R_ops tiny.
+Variable n : nat.
+Variable A : list R.
+Hypothesis LA : length A = (n * n)%nat.
+
+(* failure: at some row r, with the rows before it correctly factored (M0) and the off-diagonal
+   part of row r correctly computed (M1), the pivot a(r,r) - sum_{i<r} l(r,i)^2 is below tiny
+   (in particular: every non-positive pivot) *)
+Definition llt_failed : Prop :=
+  exists r M0 M1, (r < n)%nat /\ LltInv n (mg n A) r M0 /\
+    (forall c, (c < r)%nat -> mg n A r c = rsum (fun i => mg n M1 r i * mg n M0 c i) (S c)) /\
+    llt_pivot n (mg n A) M1 r < tiny.
+
+Lemma llt_spec :
+  exists rc M, llt RO n A = Some (rc, M) /\ length M = (n * n)%nat /\
+    ((rc = 0%nat /\ LltInv n (mg n A) n M) \/ (rc = 1%nat /\ llt_failed)).
+Proof.
+  unfold llt.
+  destruct (for_range_inv
+              (fun k (s : nat * list R) => length (snd s) = (n * n)%nat /\
+                 ((fst s = 0%nat /\ LltInv n (mg n A) k (snd s)) \/ (fst s = 1%nat /\ llt_failed)))
+              0 n
+              (fun r (s : nat * list R) => if Nat.eqb (fst s) 0 then llt_step RO n r (snd s) else Some s)
+              (0%nat, A)) as (s & E & L & P).
+  - lia.
+  - simpl. split; auto. left. split; auto. split; auto. split; [intros; lia|]. split; [intros; lia|]. auto.
+  - intros r [rc M] [_ Hr] [L [[E0 Inv]|[E1 F]]]; simpl in *; subst rc; simpl.
+    + destruct (llt_step_spec tiny tiny_pos n (mg n A) r M Hr Inv) as (rc & M' & E & L' & [[-> I']|[-> (M1 & F1 & F2)]]).
+      * exists (0%nat, M'). split; auto.
+      * exists (1%nat, M'). split; auto. simpl. split; auto. right. split; auto. exists r, M, M1. auto.
+    + exists (1%nat, M). split; auto.
+  - destruct s as [rc M]. exists rc, M. split; [exact E|]. auto.
+Qed.
+
+End LltMain.
